@@ -1582,6 +1582,20 @@ func main() {
 			bySig[sig] = witness{Kind: "crash", Detail: "worker process died under concurrency: " + cl + "\n" + inproc.TopFrames(b.LogTail(1<<16), 10) + "\njournal: " + b.LastJournal(), Sig: sig}
 		}
 	}
+	var tcp tcpOut
+	if prop == "C05" {
+		tcp = tcpPhaseC05(o, o.Pick(60, 800))
+		for _, x := range tcp.Wits {
+			if _, ok := bySig[x.Sig]; !ok {
+				bySig[x.Sig] = x
+			}
+		}
+		races += tcp.Races
+		raceFP += tcp.RacesFirstParty
+		if tcp.Note != "" && inconclusive == "" {
+			inconclusive = "TCP phase: " + tcp.Note
+		}
+	}
 	sigs := make([]string, 0, len(bySig))
 	for s := range bySig {
 		sigs = append(sigs, s)
@@ -1657,6 +1671,17 @@ func main() {
 		},
 		Assumptions: []string{"schedules are those the Go scheduler produces under GOMAXPROCS variation and the verif yield points; the race detector only sees executed accesses",
 			"the reference model decides each partition; commands whose sequential behaviour the model leaves unspecified are not generated"}}
+	if prop == "C05" {
+		ev.Coverage["tcp_histories"] = tcp.Histories
+		ev.Coverage["tcp_operations"] = tcp.Ops
+		ev.Coverage["tcp_operations_sent_in_pipelined_bursts"] = tcp.Pipelined
+		ev.Coverage["tcp_histories_decided_by_porcupine"] = tcp.Decided
+		ev.Coverage["tcp_histories_porcupine_unknown"] = tcp.Unknown
+		ev.Coverage["tcp_histories_with_overlapping_rmw"] = tcp.Overlapping
+		ev.Coverage["tcp_commands_by_name"] = tcp.OpKinds
+		ev.Coverage["tcp_rule"] = "the same command generator through 2-8 real connections (a third of them pipelining bursts of 1-4 commands) of the race-built server binary, ShardNum 1 and 4, a churn/KEYS connection alongside; call = before the write, return = after the reply is decoded; porcupine per key; verif.check / verif.stripes at quiescence; race log of the server process"
+		fmt.Printf("%s %s TCP phase: %d histories, %d ops (%d pipelined), porcupine decided %d unknown %d, overlapping-RMW histories %d, server race reports %d\n", prop, o.Tier, tcp.Histories, tcp.Ops, tcp.Pipelined, tcp.Decided, tcp.Unknown, tcp.Overlapping, tcp.Races)
+	}
 	if inconclusive != "" {
 		ev.Coverage["inconclusive"] = inconclusive
 	}
@@ -1667,7 +1692,7 @@ func main() {
 		o.Cleanup()
 		os.Exit(common.ExitViolation)
 	}
-	if inconclusive != "" || agg.Decided < 100 || agg.Overlapping < 20 {
+	if inconclusive != "" || agg.Decided < 100 || agg.Overlapping < 20 || (prop == "C05" && tcp.Decided < 20) {
 		common.Inconclusive(prop, fmt.Sprintf("%s decided=%d overlapping=%d", inconclusive, agg.Decided, agg.Overlapping))
 		o.Cleanup()
 		os.Exit(common.ExitInconclusive)
